@@ -228,6 +228,16 @@ def check_eval(ctx, cls, fold):
             st = model.enclosing_stmt(calls[0])
             okc = st in fold.inner.body and fold.inner.body.index(st) < fold.inner.body.index(
                 [s for s in fold.inner.body if fold.if_node in list(ast.walk(s))][0]) and norm_src(calls[0].func.value) == fold.cand
+            if not okc:
+                # or in a loop of its own over the same collection, run completely and unconditionally before the comparison loop
+                par_ = model.up(st)
+                blk_ = [b for b in (getattr(model.up(fold.loop), "body", []), getattr(model.up(fold.loop), "orelse", [])) if fold.loop in b]
+                if isinstance(par_, ast.For) and par_.body == [st] and not par_.orelse and isinstance(par_.target, ast.Name) and \
+                        norm_src(calls[0].func.value) == par_.target.id and norm_src(par_.iter) == norm_src(fold.inner.iter) and blk_ and par_ in blk_[0] and \
+                        blk_[0].index(par_) < blk_[0].index(fold.loop) and \
+                        all(isinstance(b, ast.Assign) and all(isinstance(t, ast.Name) for t in b.targets)
+                            for b in blk_[0][blk_[0].index(par_) + 1:blk_[0].index(fold.loop)]):
+                    okc = True
         ctx.ob("R07-EVAL", okc, cls.file, "StroquOOL.get_last_point", "each candidate's mean is refreshed before it is compared", "%s" % [norm_src(c) for c in calls],
                glp.lineno)
         # the validated candidates are the searched cells themselves (one pooled object per cell, however many precisions selected
@@ -239,8 +249,18 @@ def check_eval(ctx, cls, fold):
         whyp = "%d append site(s), %d scan(s) over self.chosen" % (len(apps), len(folds_p))
         if okp:
             f2 = folds_p[0]
+            def through_copies(e, depth=0):
+                # a name bound once to another name denotes the same object
+                while isinstance(e, ast.Name) and depth < 5:
+                    ds = [s2 for s2 in ast.walk(pull) if isinstance(s2, ast.Assign) and len(s2.targets) == 1 and isinstance(s2.targets[0], ast.Name) and
+                          s2.targets[0].id == e.id]
+                    if norm_src(e) == f2.best or len(ds) != 1 or not isinstance(ds[0].value, ast.Name):
+                        break
+                    e = ds[0].value
+                    depth += 1
+                return norm_src(e)
             for x in apps:
-                if norm_src(x.args[0]) != f2.best:
+                if through_copies(x.args[0]) != f2.best:
                     okp = False
                     whyp = "self.candidate receives '%s', not the winner '%s' of the scan over the searched cells" % (norm_src(x.args[0]), f2.best)
             extra = [s2 for s2 in ID.assignments_outside(pull, f2.best, f2) if norm_src(s2.value) not in ("None",)]
@@ -456,6 +476,7 @@ def import_once(ctx, names):
             # ... and on the cell whose point was handed out (pairing), or the 'best evaluated' point has someone else's reward
             tmp.attempt("R04-PAIR", cls.file, "%s.pull" % cls.name, "pairing", c04.check_pair, tmp, cls, designators, fcs)
     c04.check_node_classes(tmp)
+    c04.check_write(tmp)        # ... and nothing but the recording methods writes it afterwards
     for o in tmp.obligations:
         ctx.obligations.append(dict(o, rule=o["rule"].replace("R04", "R07")))
     for f in tmp.findings:
@@ -543,6 +564,12 @@ def run(ctx):
     check_wrappers(ctx)
     import_once(ctx, list(SPEC))
     import_scores(ctx)
+    # what a recommendation is computed from belongs to one run: no candidate list, score list or cell statistic is shared between
+    # instances (C14's isolation rule for the classes concerned)
+    from . import c14
+    names = [n for n in list(SPEC) + ["POO", "GPO", "PCT", "VPCT"] if n in model.classes]
+    names += [model.node_class_of_algo(n) for n in SPEC if model.node_class_of_algo(n) in model.classes]
+    c14.import_iso(ctx, sorted(set(names)), "R07-ISO", "candidates and scores belong to one instance")
     return dict(
         explanation=(
             "ARGMAX: get_last_point of DOO, SOO, SequOOL, StoSOO, StroquOOL is recognised as an arg-max fold (direction max, seed -inf, "
